@@ -60,9 +60,9 @@ def coq_build(targets=None, keep_going=True):
 def model_driver():
     """extract the model and build the OCaml driver; returns path of the binary"""
     with Lock("coq"):
-        srcs = [os.path.join(COQ, "Extract.v"), os.path.join(VERIF, "ocaml", "driver.ml")] + \
-               glob.glob(os.path.join(COQ, "*Model.v")) + [os.path.join(COQ, x) for x in ("Bytes.v", "Scenario.v")]
-        srcs = [s for s in srcs if os.path.exists(s)]
+        srcs = [os.path.join(VERIF, "ocaml", "driver.ml")] + \
+               [f for f in glob.glob(os.path.join(COQ, "*.v"))
+                if not re.search(r"(Facts|Properties_\w+|Generated_\w+|_statements)\.v$", f)]
         key = sha_files(srcs)
         d = os.path.join(BUILD, "model-" + key)
         exe = os.path.join(d, "model_driver")
@@ -72,7 +72,7 @@ def model_driver():
             shutil.rmtree(old, ignore_errors=True)
         os.makedirs(d, exist_ok=True)
         sh("coq_makefile -f _CoqProject -o Makefile", cwd=COQ, check=True)
-        sh(["make", "-j%d" % NPROC, "Scenario.vo"], cwd=COQ, check=True, timeout=3000)
+        sh(["make", "-j%d" % NPROC, "Scenario.vo", "Grammar.vo"], cwd=COQ, check=True, timeout=3000)
         sh(["coqc", "-Q", COQ, "Econf", os.path.join(COQ, "Extract.v")], cwd=d, check=True, timeout=600)
         shutil.copy(os.path.join(VERIF, "ocaml", "driver.ml"), d)
         sh("ocamlfind ocamlopt -O3 -w -a -package str model.mli model.ml driver.ml -o model_driver 2>&1 || "
